@@ -12,7 +12,8 @@ d = tempfile.mkdtemp(prefix='mc-')
 for f in os.listdir('/verif/spec'):
     shutil.copy('/verif/spec/' + f, d)
 open(d + '/mc.cfg', 'w').write(sessfam.mk_cfg(fam, conf, props))
-p = subprocess.run(['timeout', '900', 'tlc', '-workers', '16', '-metadir', d + '/md', '-config', 'mc.cfg', 'Session.tla'], cwd=d, capture_output=True, text=True)
+import os as _os
+p = subprocess.run(['timeout', '900', 'tlc', '-workers', '16', '-metadir', d + '/md', '-config', 'mc.cfg', 'Session.tla'], cwd=d, capture_output=True, text=True, env=dict(_os.environ, JAVA_TOOL_OPTIONS='-Djava.io.tmpdir=' + d))
 open(d + '/out.txt', 'w').write(p.stdout + p.stderr)
 for l in (p.stdout + p.stderr).splitlines():
     if ('Error' in l and 'behavior' not in l) or 'states generated' in l or 'violated' in l or 'evaluat' in l:
